@@ -104,41 +104,62 @@ def opt(n):
     return "None" if n < 0 else "(Some %d)" % n
 
 
-def coq_problem(d):
+def clist(items):
+    return "[%s]" % "; ".join(items)
+
+
+def nat(n):
+    """nat literals are unary terms: large ones are written through Z"""
+    return "%d" % n if n < 16 else "(Z.to_nat %d)" % n
+
+
+def coq_defs(d):
+    """top-level definitions of one case (one big let-expression elaborates far slower)"""
     f = vlib.fhexs
-    nodes = "; ".join("mkENode %s %s %s %s" % (f(x), f(y), opt(bm), opt(c)) for (x, y, bm, c) in d["nodes"])
-    elems = "; ".join("mkEElem (%d, %d, %d) (%s, %s, %s) %d %d" % (e[0], e[1], e[2], opt(e[3]), opt(e[4]), opt(e[5]), e[6], e[7])
-                      for e in d["elems"])
-    blocks = "; ".join("mkHBlock %s %s %s %s [%s]" % (f(b[0]), f(b[1]), f(b[2]), f(b[3]),
-                                                     "; ".join("(%s, %s)" % (f(t), f(k)) for (t, k) in b[4])) for b in d["blocks"])
-    lines = "; ".join("mkHLine %d %s %s %s %s %s" % ((l[0],) + tuple(f(x) for x in l[1:])) for l in d["lines"])
-    points = "; ".join("mkEPoint %s %s" % (f(p[0]), f(p[1])) for p in d["points"])
-    circs = "; ".join("mkECirc %d %s %s" % (c[0], f(c[1]), f(c[2])) for c in d["circs"])
-    labels = "; ".join("true" if l else "false" for l in d["labels"])
-    pbcs = "; ".join("(%d, %d, %d)" % p for p in d["pbcs"])
-    tprev = "; ".join(f(v) for v in (d["tprev"] or []))
-    return ("(mkHProb %s %s %d %s %s %s %s %s [%s] [%s] [%s] [%s] [%s] [%s] [%s] [%s] [%s])"
-            % ("true" if d["axi"] else "false", f(d["depth"]), d["unit"], f(d["extRo"]), f(d["extRi"]), f(d["extZo"]),
-               f(d["dt"]), f(d["prec"]), nodes, elems, blocks, lines, points, circs, labels, pbcs, tprev))
+    nodes = clist("mkENode %s %s %s %s" % (f(x), f(y), opt(bm), opt(c)) for (x, y, bm, c) in d["nodes"])
+    elems = clist("mkEElem (%s, %s, %s) (%s, %s, %s) %d %d" % (nat(e[0]), nat(e[1]), nat(e[2]), opt(e[3]), opt(e[4]), opt(e[5]), e[6], e[7])
+                  for e in d["elems"])
+    blocks = clist("mkHBlock %s %s %s %s %s" % (f(b[0]), f(b[1]), f(b[2]), f(b[3]),
+                                               clist("(%s, %s)" % (f(t), f(k)) for (t, k) in b[4])) for b in d["blocks"])
+    lines = clist("mkHLine %d %s %s %s %s %s" % ((l[0],) + tuple(f(x) for x in l[1:])) for l in d["lines"])
+    points = clist("mkEPoint %s %s" % (f(p[0]), f(p[1])) for p in d["points"])
+    circs = clist("mkECirc %d %s %s" % (c[0], f(c[1]), f(c[2])) for c in d["circs"])
+    labels = clist("true" if l else "false" for l in d["labels"])
+    pbcs = clist("(%s, %s, %d)" % (nat(p[0]), nat(p[1]), p[2]) for p in d["pbcs"])
+    tprev = clist(f(v) for v in (d["tprev"] or []))
+    n = d["nn"] + d["nc"]
+    out = []
+    out.append("Definition c_nodes : list (enode (F:=float)) := %s." % nodes)
+    out.append("Definition c_elems : list eelem := %s." % elems)
+    out.append("Definition c_tprev : list float := %s." % tprev)
+    out.append("Definition P : hprob (F:=float) := mkHProb %s %s %d %s %s %s %s %s c_nodes c_elems %s %s %s %s %s %s c_tprev."
+               % ("true" if d["axi"] else "false", f(d["depth"]), d["unit"], f(d["extRo"]), f(d["extRi"]), f(d["extZo"]),
+                  f(d["dt"]), f(d["prec"]), blocks, lines, points, circs, labels, pbcs))
+    out.append("Definition V1 : list float := %s." % clist(f(v) for v in d["V1"]))
+    out.append("Definition V2 : list float := %s." % clist(f(v) for v in d["V2"]))
+    out.append("Definition c_pows : list (float * float * float) := %s."
+               % clist("(%s, %s, %s)" % (f(a), f(b), f(c)) for (a, b, c) in d["pows"]))
+    out.append("Definition L0 := lcreate FA %s %s %s (adec FA 15 (-1))." % (nat(n), nat(d["bw"]), f(d["prec"])))
+    out.append("Definition L := mkLin %s %s (lM L0) (lb L0) V1 (lprec L0) (llam L0)." % (nat(n), nat(d["bw"])))
+    out.append("Definition D0 := PrimFloat.mul (hdepth_raw P) (nth (hunit_idx P) (hunits FA) 1%float).")
+    return "\n".join(out)
 
 
 def to_coq(d, bound):
     """model of the single pass at Vo = V1 (RUN2), of the conductor heat flows at V1 and of the
-    decisions of the outer loop"""
+    decisions of the outer loop; returns (definitions, expression)"""
     f = vlib.fhexs
-    n = d["nn"] + d["nc"]
-    V1 = "[%s]" % "; ".join(f(v) for v in d["V1"])
-    V2 = "[%s]" % "; ".join(f(v) for v in d["V2"])
-    pows = "[%s]" % "; ".join("(%s, %s, %s)" % (f(a), f(b), f(c)) for (a, b, c) in d["pows"])
-    charges = "; ".join("heat_on_conductor FA P %s V1 %d" % (f(d["depth_after"]), i) for i in range(d["nc"]))
-    return ("let P := %s in let V1 := %s in let V2 := %s in "
-            "let L0 := lcreate FA %d %d %s (adec FA 15 (-1)) in "
-            "let L := mkLin %d %d (lM L0) (lb L0) V1 (lprec L0) (llam L0) in "
-            "let D0 := PrimFloat.mul (hdepth_raw P) (nth (hunit_idx P) (hunits FA) 1%%float) in "
-            "let r := hpass FA P L D0 %s in "
+    charges = "; ".join("heat_on_conductor FA P %s V1 %s" % (f(d["depth_after"]), nat(i)) for i in range(d["nc"]))
+    expr = ("let r := hpass FA P L D0 c_pows in "
             "(dump_rows FA (lM (fst (fst (fst r)))) ++ lb (fst (fst (fst r))), snd (fst (fst r)), [%s], "
-            "[nonlinear_scan P (%s P); snd r; outer_converged FA P (firstn %d V1) V2], [D0; snd (fst r); ksb FA])"
-            % (coq_problem(d), V1, V2, n, d["bw"], f(d["prec"]), n, d["bw"], pows, charges, bound, d["nn"]))
+            "[nonlinear_scan P (%s P); snd r; outer_converged FA P (firstn %s V1) V2], [D0; snd (fst r); ksb FA])"
+            % (charges, bound, nat(d["nn"])))
+    return coq_defs(d), expr
+
+
+def model_eval(d, bound, timeout=1800):
+    defs, expr = to_coq(d, bound)
+    return vlib.coq_eval(HEADER + "\n" + defs, [expr], timeout=timeout)[0]
 
 
 def flatten_impl(d, which):
@@ -407,30 +428,62 @@ def table_for(rng, around=300.0):
     return [(lo + i * step, k0 * (slope ** i if slope > 1 else 1 + i * slope)) for i in range(n)]
 
 
+def used_bdry(p):
+    return set(s_.get("bdry", 0) for s_ in p["segments"]) - {0}
+
+
+def used_blocks(p):
+    return set(l.get("block", 0) for l in p["labels"]) - {0}
+
+
+def well_posed(p):
+    """some temperature reference exists (fixed temperature, convection, radiation or a
+    fixed-temperature conductor/point): otherwise the steady problem is singular"""
+    for i in used_bdry(p):
+        if p["bdryprops"][i - 1].get("type", 0) in (0, 2, 3):
+            return True
+    fixed_cond = set(i + 1 for i, c in enumerate(p["circuits"]) if c.get("type", 1) == 1)
+    if any(s_.get("cond", 0) in fixed_cond for s_ in p["segments"] + p["points"]):
+        return True
+    for q in p["points"]:
+        if q.get("prop", 0) > 0 and p["pointprops"][q["prop"] - 1].get("q", 0) == 0:
+            return True
+    return False
+
+
 def gen_problem(rng, quick, family, k=0):
     box = [None, "cfloat", "cfix", "material", "cfloat", "hole-fix"][k % 6]
     size = rng.choice([25, 40, 60]) if quick else rng.choice([40, 100, 250])
-    p = femgen.gen_scalar_problem(rng, "feh", size_nodes=size, box=box)
-    p["dosmartmesh"] = 0 if rng.random() < 0.8 else 1
+    nonlinear = family in ("nonlinear", "transient-nonlinear")
+    what = rng.choice(["tk", "rad", "both"]) if nonlinear else None
+    for attempt in range(20):
+        p = femgen.gen_scalar_problem(rng, "feh", size_nodes=size, box=box)
+        if not well_posed(p):
+            continue
+        if what in ("rad", "both"):
+            # a flux or convection boundary must be in use so that it can be turned into radiation
+            names = {i + 1: bp["name"] for i, bp in enumerate(p["bdryprops"])}
+            if not any(names.get(b) in ("flux", "conv") for b in used_bdry(p)):
+                continue
+        break
+    p["dosmartmesh"] = 0 if rng.random() < (0.9 if quick else 0.8) else 1
     p["dt"] = 0.0
     p["family"] = family
-    if family in ("nonlinear", "transient-nonlinear"):
-        what = rng.choice(["tk", "rad", "both"])
-        if what in ("tk", "both"):
-            idx = [i for i in range(len(p["blockprops"]))]
-            for i in idx:
-                if rng.random() < 0.6:
-                    p["blockprops"][i]["tk"] = table_for(rng)
-            if not any(b.get("tk") for b in p["blockprops"]):
-                p["blockprops"][rng.randrange(len(p["blockprops"]))]["tk"] = table_for(rng)
-            p["features"].append("tk")
-        if what in ("rad", "both"):
-            # turn the flux and/or convection boundary property into a radiation boundary
-            for bp in p["bdryprops"]:
-                if bp["name"] in ("flux", "conv") and rng.random() < 0.7:
-                    bp.update(type=3, beta=rng.choice([0.3, 0.8, 1.0]), Tinf=femgen.rnd_nice(rng, 250, 400))
-            if any(bp.get("type") == 3 for bp in p["bdryprops"]):
-                p["features"].append("rad")
+    if what in ("tk", "both"):
+        for i in sorted(used_blocks(p)):
+            if rng.random() < 0.6:
+                p["blockprops"][i - 1]["tk"] = table_for(rng)
+        if not any(p["blockprops"][i - 1].get("tk") for i in used_blocks(p)):
+            p["blockprops"][rng.choice(sorted(used_blocks(p))) - 1]["tk"] = table_for(rng)
+        p["features"].append("tk")
+    if what in ("rad", "both"):
+        # turn the flux and/or convection boundary property in use into a radiation boundary
+        cand = [i for i in sorted(used_bdry(p)) if p["bdryprops"][i - 1]["name"] in ("flux", "conv")]
+        chosen = [i for i in cand if rng.random() < 0.7] or cand[:1]
+        for i in chosen:
+            p["bdryprops"][i - 1].update(type=3, beta=rng.choice([0.3, 0.8, 1.0]), Tinf=femgen.rnd_nice(rng, 250, 400))
+        if chosen:
+            p["features"].append("rad")
     return p
 
 
@@ -554,7 +607,7 @@ def regen(ctx):
 def plan(ctx):
     """list of (family, k) cases of this tier"""
     if ctx.quick():
-        fams = ["d1-probe"] + ["linear"] * 6 + ["nonlinear"] * 4 + ["transient"] * 3
+        fams = ["d1-probe"] + ["linear"] * 12 + ["nonlinear"] * 10 + ["transient"] * 8
     else:
         fams = ["d1-probe"] + ["linear"] * 40 + ["nonlinear"] * 30 + ["transient"] * 20
     return fams
@@ -573,7 +626,7 @@ def correspond(ctx):
     rng = ctx.rng
     bound = getattr(ctx, "scan_bound", None) or scan_variant(ctx)
     dis = []
-    exprs, cases = [], []
+    cases = []
     feats = {}
     fams = plan(ctx)
     solved = 0
@@ -600,9 +653,8 @@ def correspond(ctx):
             if msg:
                 ctx.fail(msg, **replay)
         if d["nn"] <= (700 if ctx.quick() else 1500):
-            exprs.append(to_coq(d, bound))
             cases.append((p, d, replay))
-    model = vlib.coq_eval(HEADER, exprs, shard=4, timeout=1800) if exprs else []
+    model = [model_eval(d, bound) for (p, d, replay) in cases]
     nb = tot = 0
     for (p, d, replay), m in zip(cases, model):
         bad, t, b = compare(d, m)
@@ -625,6 +677,9 @@ def correspond(ctx):
     cov["mesh_sizes"] = [c[1]["nn"] for c in cases]
     cov["solved"] = solved
     cov["outer_iterations"] = iters
+    cov["nonlinear_cases"] = sum(1 for c in cases if is_nonlinear_problem(c[1]))
+    cov["transient_cases"] = sum(1 for c in cases if c[1]["dt"] != 0)
+    cov["radiation_edges"] = sum(len(c[1]["pows"]) for c in cases)
     cov["nonlinear_scan_variant"] = bound + (" (loop bound NumNodes: defect D1 present)" if bound == "scan_bound_asis"
                                              else " (loop bound NumEls)")
     return dis
